@@ -75,6 +75,7 @@ type c15Step struct {
 }
 
 type c15Sched struct {
+	Fast       bool      `json:"fast"` // long history: keep the files on tmpfs when there is one (fsync calls are still made and observed)
 	Name       string    `json:"name"`
 	HeadLimit  int64     `json:"headLimit"`
 	TotalLimit int64     `json:"totalLimit"`
@@ -358,6 +359,8 @@ type c15Shared struct {
 	genState sm.State
 	rng      *rand.Rand
 	reopens  int
+	fastBase string // directory on tmpfs, "" if none
+	fast     bool   // the current run wants it
 }
 
 type c15Env struct {
@@ -379,7 +382,11 @@ type c15Env struct {
 
 func (sh *c15Shared) newDir() string {
 	sh.ndirs++
-	d := filepath.Join(sh.base, fmt.Sprintf("c15wal-%06d", sh.ndirs))
+	base := sh.base
+	if sh.fast && sh.fastBase != "" {
+		base = sh.fastBase
+	}
+	d := filepath.Join(base, fmt.Sprintf("c15wal-%06d", sh.ndirs))
 	if err := os.MkdirAll(d, 0o700); err != nil {
 		panic(err)
 	}
@@ -1226,6 +1233,8 @@ func (e *c15Env) finish() {
 }
 
 func (sh *c15Shared) runSched(s c15Sched) {
+	sh.fast = s.Fast
+	defer func() { sh.fast = false }()
 	e := sh.newEnv(s.HeadLimit, s.TotalLimit, s.Name)
 	for _, st := range s.Steps {
 		e.step(st)
@@ -1907,11 +1916,18 @@ func TestVerifC15(t *testing.T) {
 		t.Fatal(err)
 	}
 	defer os.RemoveAll(base)
+	fastBase := ""
+	if fi, err := os.Stat("/dev/shm"); err == nil && fi.IsDir() {
+		if d, err := os.MkdirTemp("/dev/shm", "c15"); err == nil {
+			fastBase = d
+			defer os.RemoveAll(d)
+		}
+	}
 	conf := cfg.ResetTestRoot("c15_verif")
 	defer os.RemoveAll(conf.RootDir)
 	genState, _ := randGenesisState(1, false, 10)
 	sh := &c15Shared{t: t, out: newC15Writer(filepath.Join(outDir, "wal.ndjson")), base: base, conf: conf,
-		genState: genState, rng: rand.New(rand.NewSource(seed))}
+		genState: genState, rng: rand.New(rand.NewSource(seed)), fastBase: fastBase}
 	for _, s := range in.Scheds {
 		sh.runSched(s)
 	}
